@@ -389,6 +389,11 @@ fn path_variant(r: &mut Rng, p: &str) -> String {
         4 => format!("{p}/."),
         5 => format!(" {p}\u{a0}"),
         6 => format!("\u{2003}{p}\t"),
+        7 => match r.below(3) {
+            0 => format!("{p}\0"),
+            1 => format!("nul\0dir/{p}"),
+            _ => format!("{p}/./"),
+        },
         _ => p.to_string(),
     }
 }
@@ -606,9 +611,51 @@ fn gen_case(r: &mut Rng) -> Case {
             tag = "file-to-dir".into();
         }
     }
-    let n = r.range(1, 4);
+    let n = if (4..=7).contains(&mode) { r.range(3, 7) } else { r.range(1, 4) };
     for _ in 0..n {
         lines.extend(gen_op(r, &mut sim));
+    }
+    if (4..=7).contains(&mode) {
+        // deep rollback: several operations that apply (same paths re-used), then one that cannot
+        tag = "deep-rollback".into();
+        match r.below(5) {
+            0 => lines.push("*** Delete File: missing.txt".into()),
+            1 => {
+                lines.push("*** Update File: missing.txt".into());
+                lines.push("@@".into());
+                lines.push("+x".into());
+            }
+            2 => {
+                let files: Vec<Comps> = sim.files.keys().cloned().collect();
+                if !files.is_empty() {
+                    let f = show_comps(r.pick(&files));
+                    lines.push(format!("*** Update File: {f}"));
+                    lines.push("@@".into());
+                    lines.push("-this line is nowhere".into());
+                    lines.push("+x".into());
+                } else {
+                    lines.push("*** Delete File: missing.txt".into());
+                }
+            }
+            3 => {
+                let files: Vec<Comps> = sim.files.keys().cloned().collect();
+                if files.len() >= 2 {
+                    let f = show_comps(r.pick(&files));
+                    let g = show_comps(r.pick(&files));
+                    lines.push(format!("*** Update File: {f}"));
+                    lines.push(format!("*** Move to: {g}"));
+                    lines.push("@@".into());
+                    lines.push("+tail".into());
+                } else {
+                    lines.push("*** Add File: .rip".into());
+                    lines.push("+x".into());
+                }
+            }
+            _ => {
+                lines.push(format!("*** Add File: d/{}", "N".repeat(256)));
+                lines.push("+x".into());
+            }
+        }
     }
     lines.push("*** End Patch".into());
     if r.chance(1, 2) {
@@ -665,7 +712,7 @@ fn main() {
     let fixed = a.extra.get("fixed").map(|v| v != "0").unwrap_or(true);
     let verif_root = a.extra.get("verif").cloned().unwrap_or_else(|| env!("CARGO_MANIFEST_DIR").to_string() + "/..");
     let mut res = RunResult::new("C12", &a);
-    res.rule = "cases = (workspace tree, patch text): patches derived from the simulated workspace so that hunks apply (add/update/move/delete, 1-5 ops, same path re-used, file replaced by a directory), then one text-level mutation in half of them (16 kinds), path spellings (./, //, /./, trailing / and /., unicode blanks), CRLF/LF/mixed/no-final-newline/empty/non-UTF-8 files, plus a malformed stream; non-trivial = at least one op parsed and the workspace non-empty".into();
+    res.rule = "cases = (workspace tree, patch text): patches derived from the simulated workspace so that hunks apply (add/update/move/delete, 1-5 ops, same path re-used, file replaced by a directory), a deep-rollback family (3-7 applying operations followed by one that cannot), then one text-level mutation in half of them (16 kinds), path spellings (./, //, /./, trailing / and /., unicode blanks, NUL), CRLF/LF/mixed/no-final-newline/empty/non-UTF-8 files, plus a malformed stream; non-trivial = at least one op parsed and the workspace non-empty".into();
     let n = if a.thorough() { 20000 } else { 900 };
     let rt = tokio::runtime::Builder::new_current_thread().enable_all().build().unwrap();
     let mut r = Rng::new(a.seed);
@@ -704,6 +751,15 @@ fn main() {
                     let id = w.push(coq_case(c, &o, fixed));
                     if res.case_index.len() < 3000 {
                         res.case_index.insert(id.to_string(), case_json(c));
+                    }
+                }
+                if let Ok(pp) = Patch::parse(&c.patch) {
+                    res.bump(&format!("ops={}", pp.ops().len().min(8)));
+                    if o.code != 0 {
+                        // how much had been mutated before the failure is what the rollback must undo
+                        let mut sim = Sim::from_listing(&o.before);
+                        let done = pp.ops().iter().take_while(|op| spec_op(&mut sim, op).is_ok()).count();
+                        res.bump(&format!("ops_applied_before_failure={}", done.min(6)));
                     }
                 }
                 let nontrivial = !o.before.is_empty() && Patch::parse(&c.patch).map(|p| !p.ops().is_empty()).unwrap_or(false);
